@@ -607,6 +607,57 @@ func c19Fixed(c *ev.Ctx) {
 			}
 		}
 	}
+	// host maps whose Go keys are different values that a conversion could make one script
+	// key (the same number in several Go kinds behind an interface, a number and its text):
+	// whatever the conversion does with them, it does the same every time
+	type holder struct {
+		M interface{}
+		N int
+	}
+	colliding := []interface{}{
+		map[interface{}]interface{}{int(1): "int", int64(1): "int64", "k": 2},
+		map[interface{}]interface{}{float32(1.5): "f32", float64(1.5): "f64"},
+		map[interface{}]interface{}{int8(2): "i8", uint8(2): "u8", 2: "int", int32(2): "i32", uint64(2): "u64"},
+		map[interface{}]interface{}{"1": "text", 1: "int", 1.0: "float", true: "bool", "true": "text"},
+		map[interface{}]string{int(7): "a", int64(7): "b", int16(7): "c"},
+		map[interface{}]int{float64(2): 1, int(2): 2, "2": 3},
+	}
+	for oi, m := range colliding {
+		for form := 0; form < 3; form++ {
+			id := fmt.Sprintf("colliding-host-keys/%d/%d", oi, form)
+			if !c.Want(id) {
+				continue
+			}
+			var obj interface{} = map[string]interface{}{"M": m, "N": 1}
+			switch form {
+			case 1:
+				obj = holder{M: m, N: 1}
+			case 2:
+				obj = map[string]interface{}{"M": map[string]interface{}{"inner": m}, "N": 1}
+			}
+			script := `x = M; if (type(x) == "hash" && x.inner) { x = x.inner; } return [string(x), len(x), type(x), N, x[1], x[2], x[7], x[1.5], x["1"]];`
+			c.Case(id, true)
+			seen := map[string]bool{}
+			for k := 0; k < 120; k++ {
+				evr, err := eng.New(script, eng.Options{NoOptimize: k%2 == 0, NoHook: true})
+				if err != nil {
+					break
+				}
+				o := evr.Exec(obj)
+				seen[o.Desc()+" "+errText(o.Err)] = true
+				o2 := evr.Exec(obj)
+				seen[o2.Desc()+" "+errText(o2.Err)] = true
+			}
+			if len(seen) > 1 {
+				var list []string
+				for k := range seen {
+					list = append(list, clip(k, 160))
+				}
+				sort.Strings(list)
+				c.Violation(id, "host map with colliding keys converts differently from run to run", map[string]interface{}{"summary": fmt.Sprintf("%T %v read by %s gives %d different results over 240 runs: %v", m, m, script, len(seen), list), "script": script})
+			}
+		}
+	}
 	for i, s := range cases {
 		id := fmt.Sprintf("fixed/%d", i)
 		if !c.Want(id) {
